@@ -177,7 +177,10 @@ where
     }
     // Newton iterations
     let mut l = (operand / D::from_num(2)) + D::from_num(1);
-    for _i in 0..D::frac_nbits() {
+    // the first guess is too large by a factor of up to 2^(int_nbits / 2), which
+    // costs one iteration per bit before the quadratic convergence starts
+    let iterations = core::cmp::max(D::frac_nbits(), D::int_nbits() / 2 + 10);
+    for _i in 0..iterations {
         #[cfg(substrate_fixed_verif)]
         verif_tick();
         l = (l + operand / l) / D::from_num(2);
